@@ -609,6 +609,17 @@ var c31Blockers = []struct {
 	{"for i in {1..9000}; do for j in {1..9000}; do :; done; done", "nil", false},
 	{"for i in {1..16000} {1..16000} {1..16000} {1..16000} {1..16000} {1..16000}; do x=$i; done; while :; do :; done", "nil", false},
 	{"read x", "pipe", false},
+	// an external command or `test -t` first, then a blocking builtin — only the shapes that do NOT
+	// call Fd() on the runner's stdin (the others are the open finding C31-read-after-fd-*, replayed
+	// from the corpus): stdin redirected away from the child, other descriptors tested
+	{"/bin/true </dev/null; read x", "pipe", false},
+	{"/bin/true </dev/null; mapfile -t a", "pipe", false},
+	{"echo hi | /bin/cat >/dev/null; read x", "pipe", false},
+	{"[ -t 1 ]; [ -t 2 ]; read x", "pipe", false},
+	{"test -t 1; while read l; do :; done", "pipe", false},
+	{"true; select s in a b; do :; done", "pipe", false},
+	{"/bin/true; while :; do :; done", "nil", false},
+	{"/bin/true; hang", "pipe", false},
 	{"read -r a b", "pipe", false},
 	{"while read l; do :; done", "pipe", false},
 	{"select s in a b; do :; done", "pipe", false},
